@@ -3,7 +3,7 @@
     python -m harness.lib.c16_worker <jobs.json> <outdir>
 
 Every job {"id", "root", "steps", "mutation", "fault"} is run with a CPU-independent wall-clock alarm
-(signal.alarm -> TimeoutError in the main thread) and under an address-space limit, and its result
+(signal.alarm -> JobTimeout, a BaseException, in the main thread) and under an address-space limit, and its result
 {"events", "results", "faultlog"} or {"error"} is pickled to <outdir>/<id>.pkl (atomic rename), so the
 parent (run_jobs) sees progress job by job.  The parent kills a worker that makes no progress (a hang in
 C code, where the alarm cannot fire) and charges the job that was running.  A hang or runaway memory in
@@ -26,8 +26,12 @@ PER_JOB_S = int(os.environ.get("C16_JOB_TIMEOUT_S", "40"))
 MEM_LIMIT = int(os.environ.get("C16_JOB_MEM_BYTES", str(6 * 1024 ** 3)))
 
 
+class JobTimeout(BaseException):
+    """Not an Exception: neither the library's `except Exception` nor the driver's per-step handler may swallow it."""
+
+
 def _alarm(signum: int, frame: Any) -> None:
-    raise TimeoutError(f"library operation exceeded {PER_JOB_S}s")
+    raise JobTimeout(f"library operation exceeded {PER_JOB_S}s")
 
 
 def worker_main(jobs_path: str, outdir: str) -> int:
@@ -49,7 +53,7 @@ def worker_main(jobs_path: str, outdir: str) -> int:
                 try:
                     results = c16_driver.run_steps(job["root"], job["steps"], t.mark, mutation if not tmode else None)
                     out = {"events": t.events, "results": results, "faultlog": t.faultlog}
-                except (TimeoutError, MemoryError) as e:
+                except (JobTimeout, MemoryError) as e:
                     out = {"error": f"{type(e).__name__}: {e}", "events": t.events, "faultlog": t.faultlog}
         except BaseException as e:  # noqa: BLE001
             out = {"error": f"{type(e).__name__}: {e}"[:500]}
